@@ -95,6 +95,7 @@ def run_scenario(spec: dict) -> dict:
     class A(pc.Agent):
         def on_data_collectors_attached(self):
             state["collector"] = self.get_data_collector("buf")
+            state["hidden"] = 0     # state that the agent builds when it is wired up (like a recurrent agent's hidden state); persisted
 
         def setup(self):
             cb("a.setup")
@@ -111,9 +112,10 @@ def run_scenario(spec: dict) -> dict:
         def step(self, observation):
             def body():
                 if "first" not in result:
-                    result["first"] = {"steps_before": state["steps"], "clock": tc.time(), "raw": sched.now,
+                    result["first"] = {"steps_before": state["steps"], "hidden_before": state.get("hidden"), "clock": tc.time(), "raw": sched.now,
                                        "buf": list(state["user"].get_data()) if state.get("user") is not None and spec.get("load_from") else None}
                 state["steps"] += 1
+                state["hidden"] = state.get("hidden", 0) + 1
                 state["collector"].collect(state["steps"])
             cb("a.step", step_dur, body)
             return None
@@ -121,10 +123,12 @@ def run_scenario(spec: dict) -> dict:
         def save_state(self, path):
             path.mkdir(exist_ok=True)
             (path / "steps").write_text(str(state["steps"]))
+            (path / "hidden").write_text(str(state.get("hidden", 0)))
             S.mark("saved", "agent", state["steps"])
 
         def load_state(self, path):
             state["steps"] = int((path / "steps").read_text())
+            state["hidden"] = int((path / "hidden").read_text())
 
     class E(pc.Environment):
         def setup(self):
@@ -405,5 +409,5 @@ def run_scenario(spec: dict) -> dict:
         if not spec.get("states_root"):
             shutil.rmtree(tmp, ignore_errors=True)
     result.update({"trace": trace, "deadlock": None if sched.deadlock is None else str(sched.deadlock), "vtime": sched.now,
-                   "choices": sched.choices, "states": states, "steps": state["steps"], "trains": state["trains"]})
+                   "choices": sched.choices, "states": states, "steps": state["steps"], "trains": state["trains"], "hidden": state.get("hidden")})
     return result
